@@ -12,7 +12,7 @@ C. s4 binary vs the ORACLE journalctl --file (export, cat exact after parsing; t
    renderings for entry count, order and MESSAGE text) and vs the SPEC (inclusive window on
    __REALTIME_TIMESTAMP) for every window, container and --tz-offset.  Always run.
 """
-import bz2, ctypes, datetime, gzip, json, lzma, os, re, shutil, struct, subprocess, threading
+import bz2, ctypes, datetime, gzip, json, lzma, os, re, shutil, struct, subprocess, threading, time
 from concurrent.futures import ThreadPoolExecutor
 import vlib
 from vlib import CACHE, REPO
@@ -346,6 +346,17 @@ def spec_idx(times, A, B):
     return [i for i, t in enumerate(times) if (A is None or A <= t) and (B is None or t <= B)]
 
 
+def corpus_windows(name):
+    p = os.path.join(vlib.ROOT, "corpus", "C09", "windows.txt")
+    out = []
+    if os.path.exists(p):
+        for line in open(p):
+            w = line.split()
+            if len(w) == 3 and not line.startswith("#") and w[0] == name:
+                out.append(tuple(None if x == "-" else int(x) for x in w[1:]))
+    return out
+
+
 def gen_windows(rng, times, quick):
     D = sorted(set(times))
     t0, tN = times[0], times[-1]
@@ -565,8 +576,11 @@ def gen_streams(rng, blobs, n):
 def run(ctx):
     quick = ctx.quick()
     rng = ctx.rng
+    phase = {}
+    t_phase = time.time()
     # ---- A
     vlib.proof_stage(ctx, PROP_FILE, [], extra_targets=["Corr/C09.vo"])
+    phase["proof"] = round(time.time() - t_phase, 1); t_phase = time.time()
     # ---- builds
     ok, log = vlib.build_s4()
     if not ok:
@@ -575,6 +589,7 @@ def run(ctx):
     okh, logh = vlib.build_harness("c09")
     if not okh:
         ctx.obligation_broken("build", "harness c09", logh)
+    phase["build"] = round(time.time() - t_phase, 1); t_phase = time.time()
     scratch = vlib.scratch_dir("C09")
     os.makedirs(os.path.join(scratch, "tmp"))
     fxs = fixtures(scratch, quick)
@@ -608,9 +623,14 @@ def run(ctx):
     # ---- plan the runs
     runner = Runner(scratch)
     jobs = []
+    corpus_n = 0
+    phase["oracle"] = round(time.time() - t_phase, 1); t_phase = time.time()
     tzs = [("+00:00", 0), ("-03:30", -210), ("+05:45", 345), ("+14:00", 840), ("-12:00", -720)]
     for fx in fxs:
         W, picks = gen_windows(rng, fx["times"], quick)
+        cw = [w for w in corpus_windows(fx["name"]) if w not in W]
+        W = cw + W
+        corpus_n += len(cw)
         fx["windows"], fx["picks"] = W, picks
         for (A, B) in W:
             jobs.append(dict(fx=fx, path=fx["plain"], container="plain", rendering="export", A=A, B=B))
@@ -636,6 +656,7 @@ def run(ctx):
             jobs.append(dict(fx=fx, path=fx["plain"], container="plain", rendering="verbose", A=None, B=X, tz=tz))
     with ThreadPoolExecutor(max_workers=vlib.NCPU) as ex:
         jobs = list(ex.map(runner.run, jobs))
+    phase["binary_runs"] = round(time.time() - t_phase, 1); t_phase = time.time()
 
     # ---- per fixture: full export run -> per-entry blobs, compared with journalctl exactly
     def case_of(job):
@@ -736,6 +757,7 @@ def run(ctx):
     if runner.hangs:
         ctx.note("%d runs timed out" % runner.hangs)
 
+    phase["compare"] = round(time.time() - t_phase, 1); t_phase = time.time()
     # ---- B: model (Coq) vs binary
     model_dis = 0
     spec_dis_coq = 0
@@ -792,6 +814,8 @@ def run(ctx):
                                   json.dumps(dict(fixture=fx["name"], entry_index=i, code=code, cursor=fx["entries"][i]["cursor"].decode())))
     eold = run_coq(ctx, "export_old", [(t.replace("export_bad cases", "export_old_differs cases"), k) for t, k in etexts], "export (text-only printer)")
     export_old_differs = len(eold or [])
+    if eold is not None and sample and export_old_differs == 0:
+        ctx.obligation_broken("generator", "no sampled entry separates the old text-only export printer from the repaired one", "")
     # cat: entries printed alone (window A = B = t, unique time) are covered by the runs above; here the model on the same fields
     ctexts = []
     cat_cases = [(fx, i) for fx, i in sample]
@@ -846,6 +870,7 @@ def run(ctx):
                 if ts_dis == 1:
                     ctx.obligation_broken("correspondence", "export_data_is_text vs Model.Journal.text_safe", json.dumps(dict(data_hex=hx(objs[k]), impl=outl[k])))
 
+    phase["model_evaluation"] = round(time.time() - t_phase, 1)
     # ---- evidence
     allw = sum(len(fx["windows"]) for fx in fxs)
     ctx.coverage.update(
@@ -859,7 +884,7 @@ def run(ctx):
                   for fx in fxs},
         binary_runs=stats["runs"], runs_by_kind=dict(export=stats["export"], cat=stats["cat"], other_renderings=stats["other"],
                                                      container_runs=stats["containers"], tz_offset_runs=stats["tz"]),
-        windows_total=allw, sharp_window_runs=stats["sharp"], empty_selection_runs=stats["empty_selection"],
+        windows_total=allw, corpus_windows=corpus_n, phase_seconds=phase, sharp_window_runs=stats["sharp"], empty_selection_runs=stats["empty_selection"],
         export_entries_compared_exactly_with_journalctl=export_exact,
         model_window_cases=sum(len(v) for v in window_cases.values()), model_window_disagreements=model_dis,
         coq_spec_vs_binary_disagreements=spec_dis_coq,
